@@ -209,8 +209,10 @@ def _frag_not_q():
 
     d = Dfg(tys.Bool, tys.Qubit)
     b, q = d.inputs()
-    n = d.add(Not(b))
+    n = d.add(Not(b), metadata={"inner": [1, "é"], "t": True, "one": 1})  # metadata *inside* the function body
+    d.add_state_order(d.input_node, n)
     d.set_outputs(q, n, n)
+    d.hugr[d.hugr.root].metadata["body-root"] = {"k": None}
     return d.hugr
 
 
@@ -242,6 +244,18 @@ def _frag_loop_root():
     return t.hugr
 
 
+def _frag_id_reqs():
+    """A DFG-rooted body whose signature carries runtime requirements: the builders never set any, so the
+    body is obtained the public way a user gets one - by loading a document."""
+    import json
+
+    from hugr.hugr import Hugr
+
+    doc = json.loads(_frag_id().to_json())
+    doc["nodes"][0]["signature"]["runtime_reqs"] = ["arithmetic.int", "ext.x"]
+    return Hugr.load_json(json.dumps(doc))
+
+
 #: name -> (thunk building the hugr, function type spec of the value)
 FRAGMENTS = {
     # the body of a TailLoop maps just_inputs + rest to [Sum(just_inputs, just_outputs), *rest]
@@ -250,6 +264,7 @@ FRAGMENTS = {
     "notq": (_frag_not_q, ["G", [BOOL, QB], [QB, BOOL, BOOL], []]),
     "fdef": (_frag_funcdefn, ["G", [QB], [QB], []]),
     "empty": (_frag_empty, ["G", [], [], []]),
+    "idreq": (_frag_id_reqs, ["G", [BOOL], [BOOL], ["arithmetic.int", "ext.x"]]),
 }
 
 
@@ -260,7 +275,7 @@ def value_specs(tier):
         ["IntV", 3, 5], ["IntV", 0, 0], ["IntV", -1, 6], ["FloatV", 1.5], ["FloatV", 0.0], ["StringV", ""], ["StringV", "hé✓"],
         ["ExtV", "MyConst", ["Opaque", "ext.x", "Tc", C, []], {"a": [1, None]}, ["ext.x"]],
         ["ExtV", "Lin", ["Opaque", "ext.x", "Tl", A, [["TA", QB]]], 7, []],
-        ["FuncV", "id"], ["FuncV", "notq"], ["FuncV", "fdef"], ["FuncV", "empty"], ["FuncV", "looproot"],
+        ["FuncV", "id"], ["FuncV", "notq"], ["FuncV", "fdef"], ["FuncV", "empty"], ["FuncV", "looproot"], ["FuncV", "idreq"],
         ["ExtV", " Padded Name ", ["Opaque", "ext.x", "Tc", C, []], " payload\n", ["ext.x"]],
         ["ExtV", "NullPayload", ["Opaque", "ext.x", "Tc", C, []], None, []],
         ["StringV", "  padded\n"],
